@@ -213,9 +213,16 @@ def _atheris_campaign(prop_id, seed, runs, size):
         evals = 0
         digests = set()
         found = {}
+        inconclusive = []
         for d, p in procs:
             _, err = p.communicate()
-            if p.returncode != 0:
+            if p.returncode != 0 and 'libFuzzer: timeout' in err:
+                # one input kept the worker busy beyond libFuzzer's -timeout without burning CPU in Python code
+                # (or the machine was starved): that worker's campaign is inconclusive from there on; what it
+                # found before still counts
+                inconclusive.append('worker %s: libFuzzer timeout: %s' % (
+                    os.path.basename(d), ' '.join(l for l in err.splitlines() if 'Base64:' in l)[:200]))
+            elif p.returncode != 0:
                 # the reason is rarely at the very end (libFuzzer prints its statistics and dictionary last)
                 lines = err.splitlines()
                 marks = [i for i, l in enumerate(lines) if 'Traceback' in l or 'ERROR' in l or 'Uncaught' in l
@@ -233,6 +240,12 @@ def _atheris_campaign(prop_id, seed, runs, size):
                 evals += max(int(a_e), n)
             except (OSError, ValueError):
                 evals += n
+            try:
+                for line in open(os.path.join(d, 'slow.txt')):
+                    inconclusive.append('worker %s: case abandoned after 60 s of CPU: %s' % (
+                        os.path.basename(d), line.rstrip('\n')[:1200]))
+            except OSError:
+                pass
             blob = open(os.path.join(d, 'digests.bin'), 'rb').read()
             for k in range(0, len(blob) - 7, 8):
                 digests.add(blob[k:k + 8])
@@ -245,6 +258,7 @@ def _atheris_campaign(prop_id, seed, runs, size):
         return {'tool': 'atheris/libFuzzer', 'workers': NPROC, 'runs_per_worker': per,
                 'executed_units': total, 'evaluations': evals, 'distinct_nontrivial_seen': len(digests),
                 'corpus': 'even workers: empty corpus; odd workers: 8 seed inputs',
+                'inconclusive': inconclusive,
                 'digests': digests, 'found': found}
     finally:
         shutil.rmtree(tmp, ignore_errors=True)
@@ -493,6 +507,8 @@ def main(argv=None):
             print('HARNESS-ERROR: atheris campaign failed')
             return 2
         if not fuzz_info.get('skipped'):
+            for line in fuzz_info.get('inconclusive', [])[:5]:
+                print('INCONCLUSIVE (coverage-guided stage): %s' % line[:300])
             total_eval += fuzz_info['evaluations']
             nontrivial |= fuzz_info.pop('digests')
             for key, (data, detail) in fuzz_info.pop('found').items():
